@@ -251,7 +251,7 @@ class Base:
         return isinstance(v, Sc) and v.t.kind == 'bool' or (isinstance(v, PyConst) and isinstance(v.v, bool))
 
     # ---- obligations --------------------------------------------------------------
-    def oblige(self, st, goal, kind, frame, node=None, note=''):
+    def oblige(self, st, goal, kind, frame, node=None, note='', assume=True):
         if st.spec:
             return
         if z3.is_true(goal):
@@ -259,18 +259,25 @@ class Base:
         parts = split_goal(goal)
         if len(parts) > 1:
             for i, g in enumerate(parts):
-                self._oblige1(st, g, '%s.%d' % (kind, i), frame, node, note)
+                self._oblige1(st, g, '%s.%d' % (kind, i), frame, node, note, assume)
             return
-        self._oblige1(st, goal, kind, frame, node, note)
+        self._oblige1(st, goal, kind, frame, node, note, assume)
 
-    def _oblige1(self, st, goal, kind, frame, node=None, note=''):
+    def _oblige1(self, st, goal, kind, frame, node=None, note='', assume=True):
+        view = getattr(frame, 'view', None)
+        if view is not None and view.only_loops and not (kind.startswith('loop') or kind.startswith('ensures')):
+            # checked in the view that assumes all invariants; here it is an assumption
+            if assume:
+                st.assume(goal)
+            return
         where = ''
         if node is not None and hasattr(node, 'lineno'):
             where = '%s:%d' % (frame.finfo.path if frame.finfo else '?', node.lineno)
         base = '%s/%s.%s/%s' % (self.current_prop, frame.module.replace('zeroconf.', ''), frame.label, kind)
         ob = Obligation(self.ctx.new_oid(base), kind, st.pc, goal, where, note)
         self.ctx.obligations.append(ob)
-        st.assume(goal)
+        if assume:
+            st.assume(goal)
 
     def pend_raise(self, st, cond, exc, frame, node=None):
         """An operation raises `exc` when cond holds: fork a raise outcome, continue with not cond."""
